@@ -54,6 +54,18 @@ def native(prop, mode, payload, timeout):
         return {"error": "native harness output unparsable: %s / %s" % (e, p.stdout[-500:])}
 
 
+def norm_name(name):
+    return re.sub(r"#\d+$", "", re.sub(r"@L\d+", "", name))
+
+
+def load_baseline(prop):
+    path = os.path.join(VERIF, "baseline", prop + ".json")
+    if not os.path.exists(path):
+        return {}
+    with open(path) as f:
+        return json.load(f)
+
+
 def sanitize(name):
     return re.sub(r"[^A-Za-z0-9_.-]+", "_", name)[:150]
 
@@ -64,6 +76,8 @@ def main(argv=None):
     ap.add_argument("--tier", default=os.environ.get("VERIF_TIER", "quick"))
     ap.add_argument("--replay")
     ap.add_argument("--verbose", "-v", action="store_true")
+    ap.add_argument("--update-baseline", action="store_true",
+                    help="record the obligations discharged on the current (unchanged) tree")
     args = ap.parse_args(argv)
     prop = args.prop
     tier = args.tier if args.tier in ("quick", "thorough") else "quick"
@@ -82,6 +96,8 @@ def main(argv=None):
     unit_infos = []
     undecided = []
     engine_errors = []
+    unit_sha = {}
+    baseline = load_baseline(prop)
 
     # ---- 1. generate obligations from the real source ---------------------
     units = mod.units()
@@ -97,6 +113,7 @@ def main(argv=None):
             unit_infos.append({"unit": u.label, "engine_error": str(ex)})
             continue
         info = dict(info)
+        unit_sha[u.label] = (info.get("function") or {}).get("sha256", "")
         info["unit"] = u.label
         info["obligations"] = len(obs)
         minimum = getattr(getattr(u, "contract", None), "expected_min_obligations", 1)
@@ -130,9 +147,50 @@ def main(argv=None):
         engine_errors.append("solver disagreement on %s" % r.name)
     unknown = [r for r in unknown if r.status != "disagree"]
 
+    if args.update_baseline:
+        out = {}
+        for r in discharged:
+            label = _unit_of(r.name, unit_sha)
+            ent = out.setdefault(label, {"sha": unit_sha.get(label, ""), "names": set()})
+            ent["names"].add(norm_name(r.name))
+        for ent in out.values():
+            ent["names"] = sorted(ent["names"])
+        os.makedirs(os.path.join(VERIF, "baseline"), exist_ok=True)
+        with open(os.path.join(VERIF, "baseline", prop + ".json"), "w") as f:
+            json.dump(out, f, indent=0, sort_keys=True)
+        print("baseline written: %d units" % len(out))
+
+    # an obligation that was discharged on the unchanged tree (baseline), belongs to a function whose
+    # source has changed since, and is still not discharged after a longer retry, is a failed obligation
+    regressed = []
+    still_unknown = []
+    retry_ix = []
+    for r in unknown:
+        label = _unit_of(r.name, unit_sha)
+        b = baseline.get(label)
+        if b and b.get("sha") != unit_sha.get(label) and norm_name(r.name) in set(b.get("names", [])):
+            retry_ix.append(r)
+        else:
+            still_unknown.append(r)
+    if retry_ix:
+        names = {r.name for r in retry_ix}
+        regroups = [(ax, [o for o in obs if o.name in names]) for ax, obs in groups]
+        again = solve.discharge(regroups, timeout_ms=timeout_ms * 4, use_cvc5=True)
+        for r in again:
+            if r.status == "unsat":
+                discharged.append(r)
+            elif r.status == "sat":
+                failed.append(r)
+            else:
+                r.status = "unknown-after-retry"
+                regressed.append(r)
+        proper = [x for x in proper if x.name not in names] + again
+    unknown = still_unknown
+    failed = failed + regressed
+
     # ---- 3. bounded native stand-in / monitors (always; labelled bounded) --
     bounded = None
-    if hasattr(mod, "BOUNDED"):
+    if hasattr(mod, "BOUNDED") and os.path.exists(os.path.join(VERIF, "replay", "oracles", prop.lower() + ".py")):
         budget = mod.BOUNDED.get(tier, mod.BOUNDED.get("quick"))
         payload = {"tier": tier, "seed": seed, "budget": budget,
                    "known": [e for e in known if e.get("native")]}
@@ -249,6 +307,14 @@ def main(argv=None):
              ("bounded evaluations=%s" % bounded.get("evaluations")) if bounded and "error" not in bounded else "no bounded part",
              wall, status))
     return status
+
+
+def _unit_of(name, unit_sha):
+    best = ""
+    for label in unit_sha:
+        if name.startswith(label + "/") and len(label) > len(best):
+            best = label
+    return best
 
 
 def _count(xs):
